@@ -20,7 +20,7 @@ import (
 	"verif/vsess"
 )
 
-var peerModes = []string{"peer-closes-first", "peer-closes-after-us", "peer-stream-error", "silent-until-close-deadline", "peer-closes-after-stanza-for-failing-handler", "close-deadline-extended-then-peer-closes-after-us"}
+var peerModes = []string{"peer-closes-first", "peer-closes-after-us", "peer-stream-error", "silent-until-close-deadline", "peer-closes-after-stanza-for-failing-handler", "close-deadline-extended-then-peer-closes-after-us", "close-deadline-set-while-serving-then-stanza-and-peer-closes"}
 var transmitOps = []string{"Send", "SendElement", "Encode", "EncodeElement", "SendIQ-result", "SendMessage-error", "SendPresence-error", "TokenWriter", "EncodeIQ-result", "TokenWriter-opened-early"}
 
 type msgStruct struct {
@@ -85,11 +85,17 @@ func body(c *nd.Ctx) nd.Result {
 	closers := []int{1, 2, 0}[c.Choose(3, "closers")]
 	op := c.Choose(len(transmitOps), "transmit-op")
 	handlerMode := c.Choose(3, "handler") // 0 nothing, 1 replies, 2 returns error
+	tagWriteFails := c.Choose(2, "first-write-of-the-closing-tag-fails") == 1
+	if tagWriteFails && peer != "peer-closes-first" && peer != "peer-stream-error" {
+		// with the closing tag refused by the connection only peers that end the
+		// stream by themselves let Serve return
+		return nd.Result{Skip: true}
+	}
 	if closers == 0 {
 		// the application never calls Close: Serve's own shutdown is the only
 		// closer, so only histories in which Serve ends by itself are meaningful
 		switch {
-		case peer == "peer-closes-after-us" || peer == "close-deadline-extended-then-peer-closes-after-us":
+		case peer == "peer-closes-after-us" || peer == "close-deadline-extended-then-peer-closes-after-us" || peer == "close-deadline-set-while-serving-then-stanza-and-peer-closes":
 			return nd.Result{Skip: true}
 		case peer == "peer-closes-after-stanza-for-failing-handler" && handlerMode != 2:
 			return nd.Result{Skip: true}
@@ -110,6 +116,7 @@ func body(c *nd.Ctx) nd.Result {
 	var finalState xmpp.SessionState
 	var readAfter error
 	var deadlineErr error
+	tagWrites := 0
 	handlerErr := errors.New("handler failed")
 	out := vs.Run(c, vs.Options{Horizon: 20000}, func() {
 		env, setupErr = vsess.New(ns, 0)
@@ -135,10 +142,30 @@ func body(c *nd.Ctx) nd.Result {
 				deadlineErr = err
 			}
 		}
+		if tagWriteFails {
+			env.Lib.FailWriteIf = func(p []byte) bool {
+				if !strings.Contains(string(p), "</stream:stream>") {
+					return false
+				}
+				tagWrites++
+				return tagWrites == 1
+			}
+		} else {
+			env.Lib.FailWriteIf = func(p []byte) bool {
+				if strings.Contains(string(p), "</stream:stream>") {
+					tagWrites++
+				}
+				return false
+			}
+		}
 		closedByPeer := false
 		var seen strings.Builder
 		env.Lib.OnWrite = func(p []byte) {
 			seen.Write(p)
+			if !closedByPeer && strings.Contains(seen.String(), "</stream:stream>") && peer == "close-deadline-set-while-serving-then-stanza-and-peer-closes" {
+				closedByPeer = true
+				env.PeerWrite(`<message id='in2'><body>one more</body></message></stream:stream>`)
+			}
 			if !closedByPeer && strings.Contains(seen.String(), "</stream:stream>") && (peer == "peer-closes-after-us" || peer == "peer-closes-after-stanza-for-failing-handler" || peer == "close-deadline-extended-then-peer-closes-after-us") {
 				closedByPeer = true
 				env.PeerWrite(`</stream:stream>`)
@@ -173,6 +200,13 @@ func body(c *nd.Ctx) nd.Result {
 				deadlineErr = env.S.SetCloseDeadline(time.Unix(1, 0))
 			})
 		}
+		if peer == "close-deadline-set-while-serving-then-stanza-and-peer-closes" {
+			// the documented shutdown: a (distant) close deadline, then Close, while
+			// Serve is running; the peer still sends a stanza before it closes
+			vs.GoNamed("deadline", false, func() {
+				deadlineErr = env.S.SetCloseDeadline(time.Unix(1<<40, 0))
+			})
+		}
 		// transmit twice: once racing with the closers, once after everything
 		tx[0].afterClose = closeReturned > 0
 		tx[0].err = transmit(env.S, op, "tx1", early)
@@ -198,7 +232,7 @@ func body(c *nd.Ctx) nd.Result {
 	if setupErr != nil {
 		panic("c10: setup: " + setupErr.Error())
 	}
-	desc := fmt.Sprintf("peer=%s closers=%d transmit=%s handler=%d", peer, closers, transmitOps[op], handlerMode)
+	desc := fmt.Sprintf("peer=%s closers=%d transmit=%s handler=%d closing-tag-write-fails=%v", peer, closers, transmitOps[op], handlerMode, tagWriteFails)
 	c.Note("%s outcome=%s", desc, out.Kind)
 	for _, t := range out.Trace {
 		c.Note("  %s", t)
@@ -235,10 +269,16 @@ func body(c *nd.Ctx) nd.Result {
 	}
 	// the closing tag exactly once, nothing after it
 	n := strings.Count(wire, "</stream:stream>")
-	if n != 1 {
-		return fail("wire:closing-tag-count", "the closing tag was written %d times", n)
+	if tagWriteFails {
+		// the one write of the closing tag failed: it is not on the wire, and it
+		// is not attempted again (closing is final)
+		if n != 0 || tagWrites != 1 {
+			return fail("wire:closing-tag-rewritten-after-failed-write", "the connection refused the closing tag; it was written %d times in all and is on the wire %d times", tagWrites, n)
+		}
+	} else if n != 1 || tagWrites != 1 {
+		return fail("wire:closing-tag-count", "the closing tag was written %d times (on the wire: %d)", tagWrites, n)
 	}
-	if i := strings.Index(wire, "</stream:stream>"); wire[i+len("</stream:stream>"):] != "" {
+	if i := strings.Index(wire, "</stream:stream>"); i >= 0 && wire[i+len("</stream:stream>"):] != "" {
 		return fail("wire:bytes-after-closing-tag:"+opAfter(wire[i:]), "%q follows the closing tag", wire[i+len("</stream:stream>"):])
 	}
 	// transmit calls that started after a Close had returned fail and write nothing
@@ -257,13 +297,18 @@ func body(c *nd.Ctx) nd.Result {
 			return fail("transmit:success-but-not-on-wire:"+transmitOps[op], "transmit %s returned nil but is not on the wire", id)
 		}
 	}
-	// Serve's result
-	switch peer {
-	case "peer-closes-first", "peer-closes-after-us", "close-deadline-extended-then-peer-closes-after-us":
+	// Serve's result (with the closing tag refused by the connection Serve may
+	// well report that write error: not judged)
+	servePeer := peer
+	if tagWriteFails {
+		servePeer = "not-judged"
+	}
+	switch servePeer {
+	case "peer-closes-first", "peer-closes-after-us", "close-deadline-extended-then-peer-closes-after-us", "close-deadline-set-while-serving-then-stanza-and-peer-closes":
 		if deadlineErr != nil {
 			return fail("deadline:set-fails", "SetCloseDeadline returned %v", deadlineErr)
 		}
-		if handlerMode != 2 || peer != "peer-closes-first" {
+		if handlerMode != 2 || (peer != "peer-closes-first" && peer != "close-deadline-set-while-serving-then-stanza-and-peer-closes") {
 			// a handler whose reply is refused because the application closed the
 			// output in the meantime legitimately ends Serve with that error
 			if env.ServeErr != nil && !(handlerMode == 1 && errors.Is(env.ServeErr, xmpp.ErrOutputStreamClosed)) {
